@@ -88,6 +88,7 @@ def plainCType (kind : Nat) (ct : Bytes) : Bytes :=
   if kind == 0 then "text/plain".toList
   else if kind == 1 then "text/html".toList
   else if kind == 2 then (if ct.isEmpty then "application/octet-stream".toList else ct)
+  else if kind == 5 then ct   -- DataFromReader (5): the content type as given, none when empty
   else []      -- SendStatus (3), NoContent (4) set no content type
 
 /-- Content-Type after `String` / `Stringf`: kept when already set -/
